@@ -7,3 +7,5 @@
 mod sym;
 #[cfg(kani)]
 pub(crate) mod twins;
+#[cfg(kani)]
+pub(crate) mod alg;
